@@ -58,14 +58,26 @@ def collect_all_tensors_and_clear_grads(
     if id_ in seen:
         return
 
-    if id_ in _marked:  # pragma: no cover
-        assert False, "Computational graph is contains a cycle"
+    if id_ in _marked:
+        from mygrad.errors import InvalidBackprop
+
+        # A cycle can only come about when an in-place update was made on a
+        # tensor whose graph had been cleared while tensors derived from it
+        # were still in use.
+        raise InvalidBackprop(
+            "The computational graph contains a cycle: part of the graph was "
+            "'cleared' prior to an in-place update and to this backprop.\n"
+            "It is recommended that you clear all computational graphs "
+            "and restart your computation."
+        )
 
     _marked.add(id_)
 
     if t.creator is not None:
         for t_loop in t.creator.variables:
-            collect_all_tensors_and_clear_grads(t_loop, seen, topo_sorted_tensors)
+            collect_all_tensors_and_clear_grads(
+                t_loop, seen, topo_sorted_tensors, _marked
+            )
         del t_loop
 
     _marked.remove(id_)
